@@ -156,7 +156,7 @@ def run_case(case):
     from bioscrape.types import Volume
     import bioscrape.random as brandom
     C = Counter({"histories": 1})
-    viol = []
+    viol = util.ViolList()
     sp = case["spec"]
     lineage = case["lineage"]
     tp = 0.125 * np.arange(17)
